@@ -1,6 +1,7 @@
 """Per-property job specifications for ovmbmc.py (see DESIGN.md section 2)."""
 CORE = ["Core/TopologyKernel.cc", "Core/ResourceManager.cc", "Core/Iterators.cc", "Core/BaseEntities.cc", "Core/Handles.cc",
         "Core/Properties/PropertyStorageBase.cc", "Core/detail/internal_type_name.cc"]
+CORE_PROPS = CORE + ["FileManager/TypeNames.cc"]   # harnesses that create properties need typeName<T>() for the native link
 
 PROPS = {}
 # entity counts of the base family (harness/mesh_common.h): base id -> (nV, nE, nF, nC)
